@@ -5,7 +5,8 @@
    accumulators and of remove_duplicates; on data where no partial sum is small but non-zero it is exactly
    P - sA P. *)
 From Raptor Require Import Base.Sums Sparse.Defs Sparse.ConvertProofs Sparse.SortProofs Sparse.Spgemm Sparse.SpgemmProofs.
-From Raptor Require Import Dist.Comm Dist.ParSpgemm Dist.ParSpgemmProofs Dist.ParSpgemmPkg.
+From Raptor Require Import Dist.Comm Dist.ParSpgemm Dist.ParSpgemmProofs Dist.ParSpgemmPkg Dist.ParConvProofs.
+From Raptor Require Import Amg.ProlongProofs.
 From Coq Require Import Lia.
 
 Section ParProlongPkg.
@@ -82,5 +83,114 @@ Proof.
   { rewrite (Rsub_def Fth). apply Ia; [apply IP|apply Io; exact Isum]. }
   unfold drop. destruct (small (sub (denCsr P i j) s)) eqn:E2; [symmetry; apply Is2; assumption|reflexivity].
 Qed.
+
+(* ---------- k steps: the loop of par_prolongation.cpp, every product through the package ---------- *)
+Fixpoint par_smooth_iter_pkg (w : world) (ids colmaps : list (list nat)) (k : nat) (sA P : csr F) (pa pc : list nat)
+  : csr F :=
+  match k with
+  | O => P
+  | S k' => par_smooth_iter_pkg w ids colmaps k' sA (par_smooth_step_pkg w ids colmaps sA P pa pc) pa pc
+  end.
+
+Lemma zip_rows_In (ra rb : list (list (nat * F))) r :
+  In r (zip_rows F ra rb) -> exists a b, r = a ++ b /\ In a ra /\ (In b rb \/ b = []).
+Proof.
+  revert rb; induction ra as [|a ra IH]; intros rb H; [destruct H|].
+  destruct rb as [|b rb]; simpl in H; destruct H as [<-|H].
+  - exists a, []. rewrite app_nil_r. split; [reflexivity|split; [left; reflexivity|right; reflexivity]].
+  - destruct (IH [] H) as [a' [b' [E [Ha Hb]]]]. exists a', b'. split; [exact E|split; [right; exact Ha|]].
+    destruct Hb as [[]|Hb]. right; exact Hb.
+  - exists a, b. split; [reflexivity|split; [left; reflexivity|left; left; reflexivity]].
+  - destruct (IH rb H) as [a' [b' [E [Ha Hb]]]]. exists a', b'. split; [exact E|split; [right; exact Ha|]].
+    destruct Hb as [Hb|Hb]; [left; right; exact Hb|right; exact Hb].
+Qed.
+
+Lemma csr_subtract_wf (A B : csr F) : csr_wf A -> csr_wf B -> csr_nc B = csr_nc A ->
+  csr_wf (csr_subtract F add opp small A B).
+Proof.
+  intros [HA1 HA2] [HB1 HB2] Hc. split.
+  - unfold csr_subtract, csr_remove_duplicates. cbn [csr_rows csr_nr]. rewrite map_length, zip_rows_length. exact HA1.
+  - unfold csr_subtract, csr_remove_duplicates. cbn [csr_rows csr_nc]. intros r Hr p Hp.
+    apply in_map_iff in Hr. destruct Hr as [r0 [<- Hr0]].
+    apply (dedup_row_sub F zero) in Hp. apply in_map_iff in Hp. destruct Hp as [q [Eq Hq]]. rewrite <- Eq.
+    apply zip_rows_In in Hr0. destruct Hr0 as [a [b [-> [Ha Hb]]]].
+    apply in_app_or in Hq. destruct Hq as [Hq|Hq]; [exact (HA2 a Ha q Hq)|].
+    destruct Hb as [Hb|Hb]; [|subst b; destruct Hq].
+    apply in_map_iff in Hb. destruct Hb as [b0 [<- Hb0]].
+    unfold neg_line in Hq. apply in_map_iff in Hq. destruct Hq as [q0 [<- Hq0]]. cbn [fst].
+    rewrite <- Hc. exact (HB2 b0 Hb0 q0 Hq0).
+Qed.
+
+Lemma smooth_exact_ext_lt n sa k : forall t t',
+  (forall i j, i < n -> t i j = t' i j) ->
+  forall i j, i < n -> smooth_exact F zero add mul sub n sa t k i j = smooth_exact F zero add mul sub n sa t' k i j.
+Proof.
+  induction k as [|k IH]; intros t t' H i j Hi; cbn [smooth_exact]; [apply H; exact Hi|].
+  apply IH; [|exact Hi]. intros i' j' Hi'. rewrite (H i' j' Hi'). f_equal.
+  apply sumf_map_ext. intros l Hl. apply in_seq in Hl. rewrite H by lia. reflexivity.
+Qed.
+
+Lemma den_csr_overflow (M : csr F) i j : length (csr_rows M) <= i -> denCsr M i j = zero.
+Proof. intros H. unfold den_csr. rewrite nth_overflow by exact H. reflexivity. Qed.
+
+Section Exact.
+Variable isint : F -> Prop.
+Hypothesis I0 : isint zero.
+Hypothesis Ia : forall x y, isint x -> isint y -> isint (add x y).
+Hypothesis Im : forall x y, isint x -> isint y -> isint (mul x y).
+Hypothesis Io : forall x, isint x -> isint (opp x).
+Hypothesis Is1 : forall x, isint x -> smallm x = true -> x = zero.
+Hypothesis Is2 : forall x, isint x -> small x = true -> x = zero.
+Variables (w : world) (ids colmaps : list (list nat)) (big : nat) (sA : csr F) (pa pc : list nat).
+Hypothesis HA : csr_wf sA.
+Hypothesis Hsq : csr_nc sA = csr_nr sA.
+Hypothesis Hp : psum pa = csr_nr sA.
+Hypothesis Hok : fwd_ok w ids colmaps big = true.
+Hypothesis Hbig : csr_nr sA <= big.
+Hypothesis Hneed : forall r k, needs F sA pa pa r k = true -> r < length w /\ In k (nth r colmaps []).
+Hypothesis IA : forall i k, isint (denCsr sA i k).
+
+Definition P_ok (P : csr F) : Prop :=
+  csr_wf P /\ csr_nr P = csr_nr sA /\ (forall k j, isint (denCsr P k j)).
+
+Lemma step_den P i j : P_ok P -> i < csr_nr sA ->
+  denCsr (par_smooth_step_pkg w ids colmaps sA P pa pc) i j =
+  sub (denCsr P i j) (sumF (map (fun k => mul (denCsr sA i k) (denCsr P k j)) (seq 0 (csr_nr sA)))).
+Proof.
+  intros [HP [Hn IP]] Hi. rewrite <- Hsq.
+  apply (par_smooth_step_pkg_exact isint w ids colmaps big sA P pa pc i j); try assumption.
+  - rewrite Hsq, Hn. reflexivity.
+  - symmetry; exact Hn.
+  - destruct HP as [HP _]. rewrite HP, Hn. exact Hbig.
+Qed.
+
+Lemma step_ok P : P_ok P -> P_ok (par_smooth_step_pkg w ids colmaps sA P pa pc).
+Proof.
+  intros HPok. pose proof HPok as [HP [Hn IP]]. split; [|split].
+  - unfold par_smooth_step_pkg. apply csr_subtract_wf; [exact HP| |reflexivity].
+    apply (par_mult_wf F zero one add mul sub opp Fth); try assumption;
+      try (rewrite Hsq, Hn; reflexivity).
+    intros r k0 Hnk. destruct (Hneed r k0 Hnk) as [Hr Hk0].
+    apply (fetch_pkg_delivers F w ids colmaps big P pa pc r k0 Hok); [|exact Hr|exact Hk0].
+    destruct HP as [HP1 _]. rewrite HP1, Hn. exact Hbig.
+  - exact Hn.
+  - intros k j. destruct (Nat.lt_ge_cases k (csr_nr sA)) as [Hk|Hk].
+    + rewrite step_den by assumption. rewrite (Rsub_def Fth). apply Ia; [apply IP|apply Io].
+      induction (seq 0 (csr_nr sA)) as [|l ls IH]; simpl; [exact I0|]. apply Ia; [apply Im; [apply IA|apply IP]|exact IH].
+    + rewrite den_csr_overflow; [exact I0|].
+      unfold par_smooth_step_pkg, csr_subtract, csr_remove_duplicates. cbn [csr_rows].
+      rewrite map_length, zip_rows_length. destruct HP as [HP _]. rewrite HP, Hn. exact Hk.
+Qed.
+
+(* every package accepted by the id check, every partition, every k: the gathered result is (I - sA)^k P *)
+Theorem par_smooth_iter_pkg_exact k : forall P, P_ok P -> forall i j, i < csr_nr sA ->
+  denCsr (par_smooth_iter_pkg w ids colmaps k sA P pa pc) i j =
+  smooth_exact F zero add mul sub (csr_nr sA) (denCsr sA) (denCsr P) k i j.
+Proof.
+  induction k as [|k IH]; intros P HP i j Hi; cbn [par_smooth_iter_pkg smooth_exact]; [reflexivity|].
+  rewrite IH by (try apply step_ok; assumption).
+  apply smooth_exact_ext_lt; [|exact Hi]. intros i' j' Hi'. apply step_den; assumption.
+Qed.
+End Exact.
 
 End ParProlongPkg.
